@@ -407,7 +407,7 @@ def clean_status_expect(v):
     return f"{code} {HTTP_STATUS_CODES.get(code, 'UNKNOWN').upper()}", code
 
 
-def serve_case(chk, rng, shape, status, method, preset_cl, passthrough, ncb, pre, location=None, autocorrect=False, oracle=True):
+def serve_case(chk, rng, shape, status, method, preset_cl, passthrough, ncb, pre, location=None, autocorrect=False, oracle=True, env_kw=None):
     """build a response, hand it to a WSGI server, observe; returns (model line or None, observation)"""
     from werkzeug.test import create_environ
     from werkzeug.wrappers import Response
@@ -417,7 +417,7 @@ def serve_case(chk, rng, shape, status, method, preset_cl, passthrough, ncb, pre
         passthrough = True
     case = {"kind": "resp", "shape": shape, "status": repr(status), "method": method, "preset_cl": preset_cl,
             "direct_passthrough": passthrough, "callbacks": ncb, "pre": pre, "location": location, "autocorrect": autocorrect,
-            "chunks": [repr(c) for c in chunks]}
+            "environ": env_kw, "chunks": [repr(c) for c in chunks]}
     try:
         r = Response(arg, status=status, direct_passthrough=passthrough)
     except ValueError:
@@ -482,7 +482,7 @@ def serve_case(chk, rng, shape, status, method, preset_cl, passthrough, ncb, pre
             chk.fail("wsgi-response-raises", f"{pre} raised {e!r}", case)
         return None, "raised"
     case["pre_token"] = pre_tok
-    env = create_environ("/p", "http://localhost/base/", method=method)
+    env = create_environ(method=method, **env_kw) if env_kw else create_environ("/p", "http://localhost/base/", method=method)
 
     def go():
         app_iter, st, hdrs = r.get_wsgi_response(env)
@@ -560,6 +560,12 @@ LOCATIONS = ["/x", "/a b", "http://example.com/a?b=c", "/é", "http://bücher.ex
              "relative/päth?q=ü#frägment", "//☃.net/snow", "https://üser:päss@bücher.example:8443/x",
              f"http://{LONG_LABEL}.example/next", f"//{LONG_LABEL}.example/next", "https://bücher..example/next",
              f"https://user@{LONG_LABEL}.example:8443/next?x=1#top", "http://é" + "a" * 70 + ".example/", "http://[::1]:80/ü"]
+
+
+REQUEST_URLS = [dict(path="/ü/é", base_url="http://example.org/äpp/"), dict(path="/p", base_url="http://example.org/äpp/"),
+                dict(path="/naïve path/x", base_url="http://localhost/"), dict(path="/x", base_url="http://bücher.example/"),
+                dict(path="/x/", base_url="http://xn--bcher-kva.example/r/"), dict(path="/☃", base_url="https://xn--n3h.net:8443/"),
+                dict(path="/é", base_url="http://bücher.example:8080/ü/", query_string="q=ü"), dict(path="/%7Eu/é", base_url="http://[::1]:5000/")]
 
 
 def hygiene_ops(v):
@@ -823,6 +829,17 @@ def run(chk: Check) -> None:
                    location=loc, autocorrect=rng.random() < 0.5)
         chk.case(("location", loc, _), nontrivial=True)
     chk.count("location(oracle only)", 600 if quick else 12000)
+    # the request URL the relative Location is joined onto: non-ASCII PATH_INFO / SCRIPT_NAME (create_environ stores them in the
+    # latin-1 dance form), IDN and punycode hosts, a query string
+    rel = ["next", "./n?x=1", "../up", "?q=1", "?q=ü", "#frag", "", "/abs", "//other.example/p", "http://example.com/a?b=c", "/é", "sub/päth"]
+    n_env = 0
+    for env_kw in REQUEST_URLS:
+        for loc in rel:
+            for ac in (True, False):
+                serve_case(chk, rng, "str", rng.choice([302, 301, 201]), "GET", None, False, 0, None, location=loc, autocorrect=ac, env_kw=env_kw)
+                chk.case(("location-env", env_kw["path"], env_kw["base_url"], loc, ac), nontrivial=True)
+                n_env += 1
+    chk.count("location x request URL(oracle only)", n_env)
 
     drivers_close_once(chk, rng, quick)
 
@@ -875,7 +892,8 @@ def replay(rep) -> int:
         status = HTTPStatus[m.group(1)] if m else ast.literal_eval(st)
         for seed in range(20):       # the body content is random: try a few
             line, obs = serve_case(chk, random.Random(seed), inp["shape"], status, inp["method"], inp["preset_cl"],
-                                   inp["direct_passthrough"], inp["callbacks"], inp["pre"], inp.get("location"), inp.get("autocorrect", False))
+                                   inp["direct_passthrough"], inp["callbacks"], inp["pre"], inp.get("location"), inp.get("autocorrect", False),
+                                   env_kw=inp.get("environ"))
             if chk.failures:
                 print("observation (chunks, status, headers, wrapped close count, callback runs):", obs)
                 break
